@@ -192,6 +192,8 @@ Proof.
   apply pgt_c_if; [exact Hs|]. apply pgt_c_set; [|exact Hs]. apply pgt_inh_key, Hka. left. reflexivity.
 Qed.
 
+(* the hypothesis on key_ancestors is needed (a stack holding /Mk would write /Mk into pages that lack it); it holds
+   for the empty stack every caller starts with and is kept by every push *)
 Lemma pgt_pia : forall fuel cur ka s, pgt_inh_ka ka -> pgt_le s (fst (pg_pia fuel cur ka s)).
 Proof.
   induction fuel as [|f IH]; intros cur ka s Hka; [apply pgt_keep_refl|].
@@ -560,3 +562,187 @@ Proof.
   - intros j Hj. right. rewrite Hc. exact Hj.
   - eapply pgt_wC_trans_R_l; [apply pgt_wR_put, Hp|]. rewrite <- (pgt_foreign_put w d0 p h). apply pgt_insert.
 Qed.
+
+Lemma pgt_fin_C_gen : forall w (o : pg_op) d d0 c w',
+  pgt_copies_into w o d = (Bool.eqb d0 d && c) -> pgt_wC c d0 w w' ->
+  pgt_fin (pgt_T w o d) (pgt_copies_into w o d) w w' d.
+Proof.
+  intros w o d d0 c w' Hc H. rewrite Hc. eapply pgt_fin_weaken; [|apply pgt_fin_of_C, H].
+  intros j Hj. right. rewrite Hc. exact Hj.
+Qed.
+
+Lemma pgt_alloc_dR : forall p c, pgt_dR p (pd_with_store p (fst (pg_alloc (pd_store p) c))).
+Proof. intros p c. apply pgt_dR_store; [apply pgt_dR_refl|apply pgt_alloc]. Qed.
+
+Theorem frame_invariant_lemma : forall w o d,
+  let w' := fst (pg_step w o) in
+  pgt_keep (pgt_T w o d) (pd_store (pg_get w d)) (pd_store (pg_get w' d)) /\
+  (pgt_copies_into w o d = false -> pd_omap (pg_get w' d) = pd_omap (pg_get w d)).
+Proof.
+  intros w o d. cbv zeta. change (pgt_fin (pgt_T w o d) (pgt_copies_into w o d) w (fst (pg_step w o)) d).
+  destruct o as [d0 h first|d0 h first|d0 h before r|d0 h|d0 i|d0 h|d0 i v|d0 i k|d0|d0|d0|d0 i|d0 v|d0 i h|d0 i]; unfold pg_step.
+  - (* addPage *)
+    destruct first.
+    + pose proof (pgt_step_insert w d0 h 0%Z d (PoAddPage d0 h true) eq_refl) as H.
+      destruct (pg_insert w d0 h 0) as [w1 e]. exact H.
+    + destruct (pg_rv _ _) as [|c| | | |]; try (apply pgt_fin_of_R, pgt_wR_refl).
+      pose proof (pgt_step_insert w d0 h c d (PoAddPage d0 h false) eq_refl) as H.
+      destruct (pg_insert w d0 h c) as [w1 e]. exact H.
+  - (* QPDFPageDocumentHelper::addPage *)
+    destruct first.
+    + pose proof (pgt_step_insert w d0 h 0%Z d (PoHAddPage d0 h true) eq_refl) as H.
+      destruct (pg_insert w d0 h 0) as [w1 e]. exact H.
+    + pose proof (pgt_all (pg_get w d0)) as Hp. destruct (pg_all (pg_get w d0)) as [p e]. cbn [fst] in Hp.
+      destruct e; [apply pgt_fin_of_R, pgt_wR_put, Hp|].
+      pose proof (pgt_step_insert_after w d0 p h (pg_len (pd_all p)) d (PoHAddPage d0 h false) Hp eq_refl) as H.
+      destruct (pg_insert (pg_put w d0 p) d0 h (pg_len (pd_all p))) as [w1 e]. exact H.
+  - (* addPageAt *)
+    destruct (pg_foreign_handle w d0 r); [apply pgt_fin_of_R, pgt_wR_refl|].
+    pose proof (pgt_find (pg_get w d0) (pg_og_of w r)) as Hp. destruct (pg_find (pg_get w d0) (pg_og_of w r)) as [[p e] pos]. cbn [fst] in Hp.
+    destruct e; [apply pgt_fin_of_R, pgt_wR_put, Hp|].
+    pose proof (pgt_step_insert_after w d0 p h (if before then pos else (pos + 1)%Z) d (PoAddPageAt d0 h before r) Hp eq_refl) as H.
+    destruct (pg_insert (pg_put w d0 p) d0 h _) as [w1 e]. exact H.
+  - (* removePage *)
+    destruct (pg_foreign_handle w d0 h); [apply pgt_fin_of_R, pgt_wR_refl|].
+    pose proof (pgt_erase w d0 (pg_og_of w h)) as H. destruct (pg_erase w d0 (pg_og_of w h)) as [w1 e]. apply pgt_fin_of_R, H.
+  - (* shallowCopyPage *)
+    destruct (pg_lookup (pd_store (pg_get w d0)) i) as [[v|dd data key]|]; try (apply pgt_fin_of_R, pgt_wR_refl).
+    unfold pg_alloc. cbn [fst]. apply pgt_fin_of_R, pgt_wR_put. exact (pgt_alloc_dR (pg_get w d0) (PcObj v)).
+  - (* copyForeignObject *)
+    destruct (pg_norm w h) as [v|b i] eqn:En; [apply pgt_fin_of_R, pgt_wR_refl|].
+    destruct (Bool.eqb b d0) eqn:Eb; [apply pgt_fin_of_R, pgt_wR_refl|].
+    assert (Hfor : pg_foreign_handle w d0 h = true) by (unfold pg_foreign_handle; rewrite En, Eb; reflexivity).
+    pose proof (pgt_wC_copied w b d0 i Eb) as H.
+    destruct (pg_copied (pg_get w b) (pg_get w d0) i) as [[[src' dst'] e] r]. cbn [fst snd] in H.
+    assert (Hc : pgt_copies_into w (PoCopyForeign d0 h) d = Bool.eqb d0 d && true) by (cbn [pgt_copies_into]; rewrite Hfor; reflexivity).
+    destruct e; cbn [fst]; exact (pgt_fin_C_gen _ _ _ _ _ _ Hc H).
+  - (* replaceObject *)
+    cbn [fst]. eapply pgt_fin_weaken; [|apply pgt_fin_store, pgt_supd]. intros j Hj. left. exact Hj.
+  - (* swapObjects *)
+    destruct (pg_lookup (pd_store (pg_get w d0)) i) as [ci|]; [|apply pgt_fin_of_R, pgt_wR_refl].
+    destruct (pg_lookup (pd_store (pg_get w d0)) k) as [ck|]; [|apply pgt_fin_of_R, pgt_wR_refl].
+    cbn [fst]. eapply pgt_fin_weaken; [|apply (pgt_fin_store (fun j => j = i \/ j = k))].
+    + intros j Hj. left. exact Hj.
+    + eapply pgt_keep_trans; (eapply pgt_keep_weaken; [|apply pgt_supd]); intros j Hj; [left|right]; exact Hj.
+  - (* update_cache *)
+    pose proof (pgt_update_cache (pg_get w d0)) as H. destruct (pg_update_cache (pg_get w d0)) as [p e]. apply pgt_fin_of_R, pgt_wR_put, H.
+  - (* pushInheritedAttributesToPage *)
+    pose proof (pgt_push (pg_get w d0) false) as H. destruct (pg_push (pg_get w d0) false) as [p e]. apply pgt_fin_of_R, pgt_wR_put, H.
+  - (* getAllPages *)
+    pose proof (pgt_all (pg_get w d0)) as H. destruct (pg_all (pg_get w d0)) as [p e]. apply pgt_fin_of_R, pgt_wR_put, H.
+  - (* findPage *)
+    pose proof (pgt_find (pg_get w d0) i) as H. destruct (pg_find (pg_get w d0) i) as [[p e] z]. apply pgt_fin_of_R, pgt_wR_put, H.
+  - (* makeIndirectObject *)
+    unfold pg_alloc. cbn [fst]. apply pgt_fin_of_R, pgt_wR_put. exact (pgt_alloc_dR (pg_get w d0) (PcObj v)).
+  - (* replaceObject with an indirect handle *)
+    destruct (pg_norm w h) as [v|b j0].
+    + cbn [fst]. eapply pgt_fin_weaken; [|apply pgt_fin_store, pgt_supd]. intros j Hj. left. exact Hj.
+    + destruct (_ && _); [|apply pgt_fin_of_R, pgt_wR_refl].
+      destruct (Bool.eqb b d0); [|apply pgt_fin_of_R, pgt_wR_refl].
+      cbn [fst]. eapply pgt_fin_weaken; [|apply pgt_fin_store, pgt_supd]. intros j Hj. left. exact Hj.
+  - (* replaceObject with a reservation *)
+    unfold pg_alloc. cbn [fst]. apply pgt_fin_of_R, pgt_wR_put. exact (pgt_alloc_dR (pg_get w d0) (PcObj PvNull)).
+Qed.
+
+(* ------------------------------------------------------------------ in-place edits (PgyModel.v) *)
+Lemma pgt_edit_attr : forall s i attr e,
+  pgt_keep (fun j => j = i \/ exists t, snd (pgy_edit_attr s i attr e) = PrId t /\ j = t) s (fst (pgy_edit_attr s i attr e)).
+Proof.
+  intros s i attr e. unfold pgy_edit_attr.
+  destruct (pg_lookup s i) as [[[]|]|]; try apply pgt_keep_refl.
+  destruct (pg_dget l attr) as [|z|nm|j0|arr|dd];
+    try (destruct (pgy_apply e _); cbn [fst snd]; [|apply pgt_keep_refl];
+         (eapply pgt_keep_weaken; [|apply pgt_supd]); intros j Hj; left; exact Hj).
+  destruct (pg_lookup s j0) as [[v|? ? ?]|]; try apply pgt_keep_refl.
+  destruct (pgy_apply e v); cbn [fst snd]; [|apply pgt_keep_refl].
+  eapply pgt_keep_weaken; [|apply pgt_supd]. intros j Hj. right. exists j0. split; [reflexivity|exact Hj].
+Qed.
+
+Lemma pgt_edit_kids : forall p e, pgt_dR p (fst (pgy_edit_kids p e)).
+Proof.
+  intros p e. unfold pgy_edit_kids.
+  repeat (match goal with |- context [match ?x with _ => _ end] => destruct x end); cbn [fst]; pgt_doc.
+Qed.
+
+Definition pgt_yT (w : pg_world) (o : pgy_op) (d : bool) (j : N) : Prop :=
+  match o with
+  | PyBase o0 => pgt_T w o0 d j
+  | PyEdit d0 i _ _ => d0 = d /\ (j = i \/ exists t, snd (pgy_step w o) = PrId t /\ j = t)
+  | PyKids _ _ => False
+  end.
+
+Definition pgt_ycopies_into (w : pg_world) (o : pgy_op) (d : bool) : bool :=
+  match o with PyBase o0 => pgt_copies_into w o0 d | _ => false end.
+
+Theorem frame_invariant_inplace_lemma : forall w o d,
+  let w' := fst (pgy_step w o) in
+  pgt_keep (pgt_yT w o d) (pd_store (pg_get w d)) (pd_store (pg_get w' d)) /\
+  (pgt_ycopies_into w o d = false -> pd_omap (pg_get w' d) = pd_omap (pg_get w d)).
+Proof.
+  intros w o d. cbv zeta. destruct o as [o0|d0 i attr e|d0 e].
+  - exact (frame_invariant_lemma w o0 d).
+  - change (pgt_fin (pgt_yT w (PyEdit d0 i attr e) d) false w (fst (pgy_step w (PyEdit d0 i attr e))) d).
+    unfold pgt_yT, pgy_step.
+    pose proof (pgt_edit_attr (pd_store (pg_get w d0)) i attr e) as H.
+    destruct (pgy_edit_attr (pd_store (pg_get w d0)) i attr e) as [s r]. cbn [fst snd] in *.
+    exact (pgt_fin_store _ false w d0 s d H).
+  - change (pgt_fin (fun _ => False) false w (fst (pgy_step w (PyKids d0 e))) d). unfold pgy_step.
+    pose proof (pgt_edit_kids (pg_get w d0) e) as H. destruct (pgy_edit_kids (pg_get w d0) e) as [p done]. cbn [fst] in *.
+    apply pgt_fin_of_R, pgt_wR_put, H.
+Qed.
+
+(* ------------------------------------------------------------------ the document lemmas, field by field *)
+Lemma pgt_cache_core_store : forall p, pgt_keep (fun _ => False) (pd_store p) (pd_store (fst (fst (pg_cache_core p)))).
+Proof. intros. exact (proj1 (pgt_cache_core p)). Qed.
+Lemma pgt_cache_core_fields : forall p, pd_omap (fst (fst (pg_cache_core p))) = pd_omap p /\ pd_root (fst (fst (pg_cache_core p))) = pd_root p /\ pd_reg (fst (fst (pg_cache_core p))) = pd_reg p.
+Proof. intros. exact (proj2 (pgt_cache_core p)). Qed.
+Lemma pgt_push_after_cache_store : forall p, pgt_keep (fun _ => False) (pd_store p) (pd_store (fst (pg_push_after_cache p))).
+Proof. intros. exact (proj1 (pgt_push_after_cache p)). Qed.
+Lemma pgt_push_after_cache_fields : forall p, pd_omap (fst (pg_push_after_cache p)) = pd_omap p /\ pd_root (fst (pg_push_after_cache p)) = pd_root p /\ pd_reg (fst (pg_push_after_cache p)) = pd_reg p.
+Proof. intros. exact (proj2 (pgt_push_after_cache p)). Qed.
+Lemma pgt_flatten_tail_store : forall p, pgt_keep (fun _ => False) (pd_store p) (pd_store (fst (pg_flatten_tail p))).
+Proof. intros. exact (proj1 (pgt_flatten_tail p)). Qed.
+Lemma pgt_flatten_tail_fields : forall p, pd_omap (fst (pg_flatten_tail p)) = pd_omap p /\ pd_root (fst (pg_flatten_tail p)) = pd_root p /\ pd_reg (fst (pg_flatten_tail p)) = pd_reg p.
+Proof. intros. exact (proj2 (pgt_flatten_tail p)). Qed.
+Lemma pgt_cache_store : forall p, pgt_keep (fun _ => False) (pd_store p) (pd_store (fst (pg_cache p))).
+Proof. intros. exact (proj1 (pgt_cache p)). Qed.
+Lemma pgt_cache_fields : forall p, pd_omap (fst (pg_cache p)) = pd_omap p /\ pd_root (fst (pg_cache p)) = pd_root p /\ pd_reg (fst (pg_cache p)) = pd_reg p.
+Proof. intros. exact (proj2 (pgt_cache p)). Qed.
+Lemma pgt_all_store : forall p, pgt_keep (fun _ => False) (pd_store p) (pd_store (fst (pg_all p))).
+Proof. intros. exact (proj1 (pgt_all p)). Qed.
+Lemma pgt_all_fields : forall p, pd_omap (fst (pg_all p)) = pd_omap p /\ pd_root (fst (pg_all p)) = pd_root p /\ pd_reg (fst (pg_all p)) = pd_reg p.
+Proof. intros. exact (proj2 (pgt_all p)). Qed.
+Lemma pgt_push_store : forall p w, pgt_keep (fun _ => False) (pd_store p) (pd_store (fst (pg_push p w))).
+Proof. intros. exact (proj1 (pgt_push p w)). Qed.
+Lemma pgt_push_fields : forall p w, pd_omap (fst (pg_push p w)) = pd_omap p /\ pd_root (fst (pg_push p w)) = pd_root p /\ pd_reg (fst (pg_push p w)) = pd_reg p.
+Proof. intros. exact (proj2 (pgt_push p w)). Qed.
+Lemma pgt_flatten_store : forall p, pgt_keep (fun _ => False) (pd_store p) (pd_store (fst (pg_flatten p))).
+Proof. intros. exact (proj1 (pgt_flatten p)). Qed.
+Lemma pgt_flatten_fields : forall p, pd_omap (fst (pg_flatten p)) = pd_omap p /\ pd_root (fst (pg_flatten p)) = pd_root p /\ pd_reg (fst (pg_flatten p)) = pd_reg p.
+Proof. intros. exact (proj2 (pgt_flatten p)). Qed.
+Lemma pgt_update_cache_store : forall p, pgt_keep (fun _ => False) (pd_store p) (pd_store (fst (pg_update_cache p))).
+Proof. intros. exact (proj1 (pgt_update_cache p)). Qed.
+Lemma pgt_update_cache_fields : forall p, pd_omap (fst (pg_update_cache p)) = pd_omap p /\ pd_root (fst (pg_update_cache p)) = pd_root p /\ pd_reg (fst (pg_update_cache p)) = pd_reg p.
+Proof. intros. exact (proj2 (pgt_update_cache p)). Qed.
+Lemma pgt_find_store : forall p og, pgt_keep (fun _ => False) (pd_store p) (pd_store (fst (fst (pg_find p og)))).
+Proof. intros. exact (proj1 (pgt_find p og)). Qed.
+Lemma pgt_find_fields : forall p og, pd_omap (fst (fst (pg_find p og))) = pd_omap p /\ pd_root (fst (fst (pg_find p og))) = pd_root p /\ pd_reg (fst (fst (pg_find p og))) = pd_reg p.
+Proof. intros. exact (proj2 (pgt_find p og)). Qed.
+Lemma pgt_insert_local_store : forall p np pos, pgt_keep (fun _ => False) (pd_store p) (pd_store (fst (pg_insert_local p np pos))).
+Proof. intros. exact (proj1 (pgt_insert_local p np pos)). Qed.
+Lemma pgt_insert_local_fields : forall p np pos, pd_omap (fst (pg_insert_local p np pos)) = pd_omap p /\ pd_root (fst (pg_insert_local p np pos)) = pd_root p /\ pd_reg (fst (pg_insert_local p np pos)) = pd_reg p.
+Proof. intros. exact (proj2 (pgt_insert_local p np pos)). Qed.
+Lemma pgt_erase_core_store : forall p og pos, pgt_keep (fun _ => False) (pd_store p) (pd_store (fst (pg_erase_core p og pos))).
+Proof. intros. exact (proj1 (pgt_erase_core p og pos)). Qed.
+Lemma pgt_erase_core_fields : forall p og pos, pd_omap (fst (pg_erase_core p og pos)) = pd_omap p /\ pd_root (fst (pg_erase_core p og pos)) = pd_root p /\ pd_reg (fst (pg_erase_core p og pos)) = pd_reg p.
+Proof. intros. exact (proj2 (pgt_erase_core p og pos)). Qed.
+Lemma pgt_copied_src_store : forall src dst fid, pgt_keep (fun _ => False) (pd_store src) (pd_store (fst (fst (fst (pg_copied src dst fid))))).
+Proof. intros. exact (proj1 (pgt_copied_src src dst fid)). Qed.
+Lemma pgt_copied_src_fields : forall src dst fid, pd_omap (fst (fst (fst (pg_copied src dst fid)))) = pd_omap src /\ pd_root (fst (fst (fst (pg_copied src dst fid)))) = pd_root src /\ pd_reg (fst (fst (fst (pg_copied src dst fid)))) = pd_reg src.
+Proof. intros. exact (proj2 (pgt_copied_src src dst fid)). Qed.
+
+(* pg_erase on a world: both documents *)
+Lemma pgt_erase_store : forall w d og b, pgt_keep (fun _ => False) (pd_store (pg_get w b)) (pd_store (pg_get (fst (pg_erase w d og)) b)).
+Proof. intros. exact (proj1 (pgt_erase w d og b)). Qed.
+Lemma pgt_erase_fields : forall w d og b, pd_omap (pg_get (fst (pg_erase w d og)) b) = pd_omap (pg_get w b).
+Proof. intros. exact (proj1 (proj2 (pgt_erase w d og b))). Qed.
